@@ -12,8 +12,7 @@ PERMIT_EXEC = ("EXECUTE", "PERMIT")      # "executor permits"
 TTL = 300_000_000
 FINDING = "C07-gate-reassigned-cache"
 FINDING_CLAUSE = "unblocked_only_if_configured_gate_satisfied_by_original"
-FINDING2 = "C07-unprintable-agent-exception"
-FINDING2_CLAUSE = "agent_exception_yields_a_blocked_reply"
+UNRENDERABLE_CLAUSE = "agent_exception_yields_a_blocked_reply"     # (finding C07-unprintable-agent-exception: fixed)
 HOOKS = ["none", "ok", "raise"]
 VERDICT_FIELDS = ("action", "success", "blocked", "token", "hash_ok", "issuer_ok")
 
@@ -46,11 +45,12 @@ class C07(Prop):
     extractors = ["E2"]
     all_branches = (["set:gate", "set:cache", "set:agents", "nest:2", "nest:3", "nest:4", "nest:all-issued", "energy:refused", "k:circuit_open", "k:cache_hit", "k:agent_exc", "k:gated_success", "k:gated_neither",
                      "k:raised", "token", "cache:shrunk", "cache:replace-or-evict", "set:onblock", "set:onpermit", "hook:block",
-                     "hook:permit", "hook:raised", "exc:unprintable", "k:aborted", "set:silent", "payload:unrenderable", "print:raised"]
+                     "hook:permit", "hook:raised", "exc:unprintable", "k:aborted", "set:silent", "payload:unrenderable", "print:unrenderable"]
                     + [f"act:{a}" for a in ("SUCCESS", "BLOCKED", "FAILURE", "SKIPPED", "ERROR")])
     assumptions = [
-        "agents return an ActionProtein whose action_type is a str and whose payload is str()-able, or raise an Exception "
-        "(a malformed return value or a BaseException makes run() raise outside its handler after the agents were charged: "
+        "agents return an ActionProtein whose action_type is a str (any payload: one whose __str__ raises is rendered with a "
+        "placeholder since the fix: commits - modelled, runP) or raise an Exception (renderable or not) "
+        "(a return value that is no ActionProtein makes run() raise outside its handler after the agents were charged: "
         "nothing comes back, nothing passes; not modelled)",
         "requests may overlap at agent-call granularity (an agent re-entering the loop, a second thread while an agent is "
         "busy): the phases look-up / executor call / assessor call / finish are atomic and the verdicts a finish phase "
@@ -314,9 +314,9 @@ class C07(Prop):
                     return None
                 if "excS" in (z, y) or str(z).startswith("u:") or str(y).startswith("u:"):
                     # "any agent exception / any other combination yields blocked": an exception - or the payload of a
-                    # verdict - that cannot be rendered as text makes run() raise instead of answering (open finding
-                    # C07-unprintable-agent-exception); nothing passes
-                    out.append(Violation(FINDING2_CLAUSE, "a LoopResult (agent exceptions become blocked ERROR; verdicts are "
+                    # verdict - that cannot be rendered as text must not make run() raise instead of answering
+                    # (the defect of the repaired finding C07-unprintable-agent-exception)
+                    out.append(Violation(UNRENDERABLE_CLAUSE, "a LoopResult (agent exceptions become blocked ERROR; verdicts are "
                                          "gated whatever their payload)", raw, idx))
                     return None
                 out.append(Violation("run_returns_a_result", "a LoopResult (agent exceptions become blocked ERROR)",
@@ -324,6 +324,10 @@ class C07(Prop):
                 return None
             # (o.raised with a result: a CALLBACK raised after the request was handled completely; the result the
             #  callback was given - logged and cached by then - is judged like a reply)
+            if o.raised is not None and o.raised != "HookError":
+                # run() produced (and logged) the gate's result and then raised something that is no callback's
+                # exception (the console output failing to render a payload): the caller is owed the reply
+                out.append(Violation("run_returns_a_result", "the LoopResult that was produced, not " + o.raised, raw, idx))
             verdict = (o.action, o.success, o.blocked, o.token, o.issuer)
             if o.action == "CIRCUIT_OPEN":
                 if not o.blocked:
@@ -417,7 +421,7 @@ class C07(Prop):
                     out.append(Violation("on_permit_only_for_a_request_that_passes",
                                          f"no on_permit call (gate={gate} executor={z} assessor={y})", raw, idx))
                 permit_calls = o.permit_hook_calls
-        known = {FINDING_CLAUSE: FINDING, FINDING2_CLAUSE: FINDING2}
+        known = {FINDING_CLAUSE: FINDING}
         self._finding_only[tuple(case["lines"])] = (
             sorted({known[v.clause] for v in out}) if out and all(v.clause in known for v in out) else [])
         return out
@@ -428,10 +432,6 @@ class C07(Prop):
         only = self._finding_only.get(tuple(case["lines"])) or []
         if FINDING in only and any(l.startswith("set gate ") for l in case["lines"]):
             return FINDING
-        if FINDING2 in only and any((" excS" in l or " u:" in l) for l in case["lines"]):
-            # open finding C07-unprintable-agent-exception: an agent raised an Exception whose __str__ raises, run() raised
-            # instead of answering blocked, and nothing else is wrong with the case
-            return FINDING2
         return None
 
     def _oracle_reenter(self, info, idx, out):
